@@ -225,6 +225,7 @@ func (s *Streamsql) Emit(data map[string]interface{}) {
 		return
 	}
 	if s.schemaValidator != nil {
+		data = s.schemaInput(data)
 		if err := s.schemaValidator.Validate(data); err != nil {
 			n := atomic.AddInt64(&s.schemaDropped, 1)
 			if n == 1 || n%1000 == 0 {
@@ -273,12 +274,30 @@ func (s *Streamsql) EmitSync(data map[string]interface{}) (map[string]interface{
 	}
 
 	if s.schemaValidator != nil {
+		data = s.schemaInput(data)
 		if err := s.schemaValidator.Validate(data); err != nil {
 			atomic.AddInt64(&s.schemaDropped, 1)
 			return nil, fmt.Errorf("schema validation failed: %w", err)
 		}
 	}
 	return s.stream.ProcessSync(data)
+}
+
+// schemaInput returns the map that schema validation works on: Validate fills
+// declared defaults into the map it is given, and the caller's map must stay as
+// it was, so a row that lacks a defaulted field is validated (and processed) as
+// a shallow copy.
+func (s *Streamsql) schemaInput(data map[string]interface{}) map[string]interface{} {
+	for _, f := range s.schemaValidator.Fields {
+		if _, present := data[f.Name]; !present && f.Default != nil {
+			cp := make(map[string]interface{}, len(data)+len(s.schemaValidator.Fields))
+			for k, v := range data {
+				cp[k] = v
+			}
+			return cp
+		}
+	}
+	return data
 }
 
 // SchemaDropped returns the count of rows dropped by schema validation.
